@@ -12,6 +12,7 @@ import (
 
 	"golang.org/x/tools/go/ssa"
 
+	"polycheck/eng"
 	"polycheck/ob"
 	"polycheck/props"
 	"polycheck/ssau"
@@ -153,6 +154,37 @@ func run(c *props.Ctx) {
 	c.R.Floor("WELD-1", 1)
 	c.R.Floor("SHARE-1", 1)
 	c.R.Floor("MERGE-1", 1)
+	weldDegenerate(c)
+}
+
+// weldDegenerate (DEGEN-1, shared engine): the stitch pass of March — Mesh.WeldByFloat3Attribute — drops a welded
+// triangle exactly when two of its corners fall into one weld cell; a degenerate face that survives the weld is a
+// doubly used / unpaired edge in the marched surface.
+func weldDegenerate(c *props.Ctx) {
+	fn := c.P.Func("modeling", "Mesh.WeldByFloat3Attribute")
+	if fn == nil {
+		c.R.Failf("anchor modeling.Mesh.WeldByFloat3Attribute (stitch pass of March) not found")
+		return
+	}
+	modelingPath := fn.Pkg.Pkg.Path()
+	isKey := func(o types.Object) bool {
+		f, ok := o.(*types.Func)
+		return ok && ssau.IsFunc(f, modelingPath, "Vector3ToInt")
+	}
+	r := eng.AnalyseDegenerateDrop(fn, isKey)
+	for i, f := range r.Findings {
+		construct := fmt.Sprintf("%s#%d", c.P.FuncName(fn), i+1)
+		pos := c.P.Pos(fn.Pos())
+		if f.At != nil {
+			pos = c.P.Pos(ssau.PosOf(f.At))
+		}
+		if f.OK {
+			c.R.Hold(f.Rule, construct, pos, f.Detail)
+		} else {
+			c.R.Violate(f.Rule, construct, pos, f.Detail)
+		}
+	}
+	c.R.Floor("DEGEN-1", 1)
 }
 
 // ---------------------------------------------------------------------------
